@@ -65,6 +65,10 @@ class SwitchWriteHandler(AbstractWriteHandler):
         m = op.get_marker()
         assert isinstance(m, SwitchStart)
         self.decompiler.source_map_add_opcode(op.offset)
+        # (multi-line strings are printed relative to the indent of the statement they are written in)
+        for param in op.root.params:
+            if hasattr(param, "indent"):
+                param.indent = self.decompiler.indent
         self.decompiler.write_stmnt(f"switch ( {self._switch_header_for(op.root)} )")
         is_switch_dungeon_mode = op.root.op_code.name == OP_SWITCH_DUNGEON_MODE
 
